@@ -4,6 +4,7 @@ import Gtree.Lemmas.ParseDoc
 import Gtree.Generated.Facts
 import Gtree.Lemmas.SplitSim
 import Gtree.Lemmas.BlockHavoc
+import Gtree.Lemmas.MkOrder
 /-
   C10 — massive mode is the simple mode up to the order of roots: the parts that are logic.
   (1) Printer: with the mutex held around the printing of a whole root, the output of every schedule
@@ -231,3 +232,65 @@ theorem C10_block_beginning_is_the_source (l : Bytes) (sharp : Bool) :
 theorem C10_heading_row_is_the_source (l : Bytes) : Src.isSharpRootRow l = isSharpRow l :=
   isSharpRootRow_src l
 end Gtree
+
+namespace Gtree
+
+/-- **C10, "mkdir leaves the same filesystem" — for every order in which the workers take the roots.**
+    In the massive mode each root is checked ("does it exist already?") and created on its own, in the order
+    the scheduler hands the roots out (`mkdirRootsEach`).  Under the hypotheses of `C06_exact` (good names,
+    distinct sibling names, a clean target none of whose prefixes is a file, none of the roots present), for
+    EVERY permutation of the forest: every per-root check passes, every root is created, the call succeeds, and
+    the file system afterwards is — `lookup` of every path — the one the simple mode leaves.
+    (Granularity: whole roots; the operations of two roots interleaved are covered for confinement by
+    `C07_confined_massive`, for the result by the race-detector runs of the correspondence.) -/
+theorem C10_mkdir_any_root_order (f : Fmt) (exts : List Bytes) (ts : List Bytes) (roots roots' : List T) (fs : FS)
+    (hts : GoodList ts) (hg : AllGoodL roots) (hd : DistinctL roots) (hc : fs.Closed)
+    (hnf : ∀ i < ts.length, notFile fs (key (ts.take (i + 1))))
+    (hnone : anyRootExists fs (key ts) (roots.map (growRoot f)) = false)
+    (hperm : roots'.Perm roots) :
+    (mkdirRootsEach (key ts) exts fs (roots'.map (growRoot f))).2 = none ∧
+    ∀ p, (mkdirRootsEach (key ts) exts fs (roots'.map (growRoot f))).1.lookup p
+      = (mkdirRoots fs (key ts) exts (roots.map (growRoot f))).1.lookup p := by
+  have habs := nodes_absent f exts ts roots fs hts hg hc hnone
+  have habs' : ∀ e ∈ pathsOf exts ts roots', fs.lookup (key e.1) = none :=
+    fun e he => habs e ((mem_pathsOf_perm exts ts hperm e).mp he)
+  have hg' : AllGoodL roots' := (allGoodL_perm hperm).mpr hg
+  have hd' : DistinctL roots' := (distinctL_perm hperm).mpr hd
+  have heach := mkdirRootsEach_forest f exts ts hts fs hnf roots' [] (by simpa using hg') (by simpa using hd') (by simpa using habs')
+  simp only [mkKids, List.nil_append] at heach
+  rw [heach]
+  refine ⟨rfl, ?_⟩
+  obtain ⟨_, hex'⟩ := mkKids_exact exts roots' ts fs hts hg' hd' hnf habs'
+  obtain ⟨_, hex⟩ := mkdirRoots_exact f exts ts roots fs hts hg hd hc hnf hnone
+  by_cases hr : roots = []
+  · subst hr
+    have : roots' = [] := List.Perm.eq_nil hperm
+    subst this
+    intro p
+    simp [mkKids, mkdirRoots, anyRootExists, mkdirRoots.go]
+  · have hr' : roots' ≠ [] := by
+      intro e; subst e; exact hr (List.Perm.eq_nil hperm.symm)
+    exact exact_unique exts ts roots' roots fs _ _ hex' hex (mem_pathsOf_perm exts ts hperm) hr' hr
+
+/-- non-vacuity: two roots `a` (holding `x`) and `b`, taken in the other order, into target `t` on the empty file system -/
+example : ∃ (ts : List Bytes) (roots roots' : List T) (fs : FS), GoodList ts ∧ AllGoodL roots ∧ DistinctL roots ∧ fs.Closed ∧
+    (∀ i < ts.length, notFile fs (key (ts.take (i + 1)))) ∧
+    anyRootExists fs (key ts) (roots.map (growRoot Fmt.default)) = false ∧ roots'.Perm roots ∧ roots' ≠ roots := by
+  refine ⟨[[116]], [T.mk [97] [T.mk [120] []], T.mk [98] []], [T.mk [98] [], T.mk [97] [T.mk [120] []]], [], ?_, ?_, ?_, ?_, ?_, ?_, ?_, by simp⟩
+  · refine ⟨by simp, ?_⟩
+    intro e he
+    simp only [List.mem_singleton] at he
+    subst he
+    exact ⟨⟨by decide, by decide, by decide, by decide⟩, by decide, by decide⟩
+  · simp only [AllGoodL, AllGoodT, and_true]
+    exact ⟨⟨⟨⟨by decide, by decide, by decide, by decide⟩, by decide, by decide⟩,
+      ⟨⟨by decide, by decide, by decide, by decide⟩, by decide, by decide⟩⟩,
+      ⟨⟨by decide, by decide, by decide, by decide⟩, by decide, by decide⟩⟩
+  · simp [DistinctL, DistinctT, T.name]
+  · intro es _ h; exact absurd rfl h
+  · intro i _ n; simp [FS.lookup]
+  · decide
+  · exact List.Perm.swap _ _ _
+
+end Gtree
+
